@@ -11,7 +11,11 @@ for (const line of fs.readFileSync(process.argv[2], 'utf8').split('\n')) {
   if (!line.trim()) continue;
   const { src, inst, marks } = JSON.parse(line);
   let fn;
-  try { fn = new Function('__m', '__o', 'with (__o) {\n' + inst + '\n}'); } catch (e) { continue; }
+  // every function declared at the top level is called once after the program itself (the reference semantics treats every
+  // function body as an entry point)
+  const decls = [...src.matchAll(/^(?:async )?function\*? ?([A-Za-z_$][\w$]*)\(/gm)].map((m) => m[1]);
+  const trailer = decls.map((d) => `;try{const __r=${d}();if(__r&&typeof __r.next==='function'){__r.next();__r.next();}}catch(__e){}`).join('');
+  try { fn = new Function('__m', '__o', 'with (__o) {\n' + inst + '\n' + trailer + '\n}'); } catch (e) { continue; }
   const executed = new Set();
   let aborted = 0, threw = 0;
   for (let run = 0; run < RUNS; run++) {
@@ -36,7 +40,8 @@ for (const line of fs.readFileSync(process.argv[2], 'utf8').split('\n')) {
     const value = () => { const x = r(); return x < 0.3 ? true : x < 0.6 ? false : x < 0.7 ? undefined : x < 0.75 ? 0 : opaque(); };
     const scope = new Proxy({}, {
       has(t, k) { return typeof k === 'string' && !KEEP.has(k); },
-      get(t, k) { if (k === Symbol.unscopables) return undefined; return value(); },
+      // names the generators use in call position are callable (returning anything); the others are any value
+      get(t, k) { if (k === Symbol.unscopables) return undefined; if (/^(f|g|h|h1|c|foo|bar|tag|use|call\d*|f9|foo\d+|X|C)$/.test(k)) return opaque(); return value(); },
       set() { return true; },
     });
     // (a loop without a marked statement in it never reaches the step budget: a wall-clock limit ends it)
